@@ -113,6 +113,7 @@ def strip_labels(text):
 def check_one(job):
     name, targets, at, line0 = job
     st = smt.Stats()
+    smt.STATS = st  # path-feasibility queries of the machines are charged to this job too
     src = program(form_text(name), targets, at=at, line0=line0)
     out = {"job": job, "src": src, "sigs": [], "stats": None, "counts": {}}
     missing = 55 in targets
